@@ -87,7 +87,9 @@ func init() {
 	})
 	m("String", func(i *interpreter, re *regexp.Regexp, a []value) value { return re.String() })
 	m("FindString", func(i *interpreter, re *regexp.Regexp, a []value) value { return re.FindString(i.concString(a[0])) })
-	m("FindStringIndex", func(i *interpreter, re *regexp.Regexp, a []value) value { return ints(re.FindStringIndex(i.concString(a[0]))) })
+	m("FindStringIndex", func(i *interpreter, re *regexp.Regexp, a []value) value {
+		return ints(re.FindStringIndex(i.concString(a[0])))
+	})
 	m("FindAllString", func(i *interpreter, re *regexp.Regexp, a []value) value {
 		return toValues(re.FindAllString(i.concString(a[0]), int(i.concInt(a[1]))))
 	})
